@@ -21,6 +21,7 @@ from .values import (
     JSBoundMethod,
     to_string,
     to_number,
+    to_integer_or_infinity,
 )
 from .errors import JSError, MemoryLimitError, TimeLimitError
 
@@ -868,8 +869,12 @@ class Context:
         string_constructor = JSCallableObject(string_call)
 
         def fromCharCode_fn(*args):
-            """String.fromCharCode - create string from char codes."""
-            return "".join(chr(int(to_number(arg))) for arg in args)
+            """String.fromCharCode - each argument is taken as a ToUint16 code unit."""
+            units = []
+            for arg in args:
+                n = to_integer_or_infinity(arg)
+                units.append(chr(n & 0xFFFF) if isinstance(n, int) else "\x00")
+            return "".join(units)
 
         string_constructor.set("fromCharCode", fromCharCode_fn)
 
